@@ -12,8 +12,7 @@ META = {
     "coq_files": ["Gen/ObjFmtConsts.v", "ObjFmt/Model.v", "ObjFmt/Spec.v", "ObjFmt/Proofs.v", "ObjFmt/SliceProofs.v", "ObjFmt/Check.v",
                   "Props/Properties_C24.v"],
     "theorems": ["C24_stored_implies_valid", "C24_replicated_implies_valid", "C24_client_put_strict_auth", "C24_chunking_irrelevant",
-                 "C24_size_mismatch_rejected", "C24_short_payload_rejected", "C24_no_masked_store_error",
-                 "C24_slices_reassemble_partial", "C24_slicing_chunking_irrelevant"],
+                 "C24_size_mismatch_rejected", "C24_short_payload_rejected", "C24_slices_reassemble_partial"],
     "technique": "Coq proof over an executable transcription of FormatValidator.validate / checkEC / AuthenticateObject / validatingTarget / "
                  "ValidateAndStoreObjectLocally / the slicer's payload arithmetic, with hash, streaming hash and signatures as Section variables; "
                  "differential tie: the real putsvc.Service (Streamer and the replicate validation) over recording fakes on objects valid or mutated in one field "
